@@ -96,11 +96,11 @@ class D:
         return x if isinstance(x, D) else D(x, 0)
 
     def __add__(a, b):
-        if isinstance(b, (Vec, Mat)): return NotImplemented
+        if not is_scalar(b): return NotImplemented      # let the other operand's reflected operator handle it
         return _add(a, b)
     __radd__ = __add__
     def __sub__(a, b):
-        if isinstance(b, (Vec, Mat)): return NotImplemented
+        if not is_scalar(b): return NotImplemented
         return _sub(a, b)
     def __rsub__(a, b): return _sub(b, a)
     def __mul__(a, b):
@@ -108,7 +108,9 @@ class D:
             return NotImplemented          # Vec/Mat/SpatialVec/Inertia...: their __rmul__ handles scalar*object
         return _mul(a, b)
     def __rmul__(a, b): return _mul(b, a)
-    def __truediv__(a, b): return _div(a, b)
+    def __truediv__(a, b):
+        if not is_scalar(b): return NotImplemented
+        return _div(a, b)
     def __rtruediv__(a, b): return _div(b, a)
     def __neg__(a): return _neg(a)
     def __pos__(a): return a
